@@ -14,13 +14,18 @@ def gen(rng, with_pump):
     defined = set()   # qualified (ns, local) currently defined
     used = set()      # qualified names referenced somewhere
     structs = 0
+    lines.append(("@defl gctr9, 0", None))        # a global *constant*: replacing its value never opens a scope
     if with_pump:
         lines.append(("@macro mkglob, 1, nm1\nnm1:\n@endmacro", None))
         lines.append(("@macro emit1, 1, pv1\n@db pv1\n@endmacro", None))
+        # a macro that opens a scope itself before it uses its argument; a macro that replays a block argument
+        lines.append(("@macro gluse, 2, gnm1, expv1\ngnm1:\n@db ( expv1 ) & 255\n@endmacro", None))
+        lines.append(("@macro wrapb, 1, bdy1\nbdy1\n@endmacro", None))
     if rng.random() < 0.06:
         # a local name before any global label must be rejected -- also right after a struct or a macro
         # definition, neither of which opens a scope
-        pre = rng.choice(["", "@struct Vec\n  xpos 1\n  aa 2\n@endstruct\n", "@defn Kq, 3\n", "@macro mq, 0\nGq:\n@endmacro\n"])
+        pre = rng.choice(["", "@struct Vec\n  xpos 1\n  aa 2\n@endstruct\n", "@defn Kq, 3\n", "@macro mq, 0\nGq:\n@endmacro\n",
+                          "@redefl gctr9, 1\n", "@redefn gctr9, gctr9 + 1\n"])
         lines.append((pre + rng.choice(["@db .aa", ".aa:", "@defn .bb, 1", "@undef .cc", "@db @isdef .aa", "@redefl .aa, 2",
                                         "@db @sizeof .aa", "@defl .cc, 4"]), None))
     for _ in range(rng.randrange(4, 30)):
@@ -32,8 +37,16 @@ def gen(rng, with_pump):
             globs += 1
             g = rng.choice(["Glob%d", "Glob%d", "_Glob%d", "_g%d", "G_%d_", "__%d"]) % globs      # names may start (and end) with an underscore
             k = rng.random()
-            if with_pump and k < 0.3:
+            if with_pump and k < 0.2:
                 lines.append(("mkglob %s" % g, ns)); ns = g
+            elif with_pump and k < 0.3:
+                # the local name in the argument belongs to the scope the macro body opens before using it
+                l2 = rng.choice(LOCALS)
+                if rng.random() < 0.5:
+                    lines.append(("gluse %s, %s" % (g, l2), g))
+                else:
+                    lines.append(("wrapb { %s: @db ( %s ) & 255 }" % (g, l2), g))
+                ns = g; used.add((g, l2))
             elif with_pump and k < 0.45:
                 # a label without its colon, followed on the same line by text that the token pump expands at once:
                 # the label's scope is already in force for it
@@ -72,8 +85,11 @@ def gen(rng, with_pump):
             lines.append(("@redefn %s, %s + 2" % (loc, o), ns)); defined.add((ns, loc))
         elif r < 0.80 and have:
             l = rng.choice(have); lines.append(("@undef %s" % l, ns)); defined.discard((ns, l))
-        elif r < 0.88:
+        elif r < 0.86:
             lines.append(("@db @isdef %s" % loc, ns))
+        elif r < 0.88:
+            lines.append((rng.choice(["@redefl gctr9, gctr9 + 1", "@redefn gctr9, 7", "@redefl gctr9, %s + 1" % loc]), ns))
+            if loc in lines[-1][0]: used.add((ns, loc))
         elif r < 0.93:
             structs += 1
             sn = rng.choice(["Stru%d", "Stru%d", "_Stru%d"]) % structs
